@@ -35,7 +35,9 @@ ASSUMPTIONS = [
     "harness built with overflow-checks=true so a wrapped `start - 1`, `end + 1` or `+ start` shows up as panic:overflow",
     "isize/usize are 64-bit on this target",
     "float draws: Lean `Float` and Rust `f64` execute the same IEEE-754 binary64 operations (+ - * / <, u64 -> f64) on this machine; the "
-    "theorem float_range_in is about an abstract monotone rounding on exact rationals (no overflow), float_range_lt_end about any arithmetic",
+    "theorems float_range_in / float_range_in_binary64 are about exact rationals with a (concrete RNE-53, subnormals) rounding and no overflow, "
+    "float_range_lt_end about any arithmetic",
+    "the integer types are exactly the five make_randomable!(..) pairs (pinned by extract; another invocation or impl = broken correspondence)",
     "STATISTICS ARE TESTED, NOT PROVED: permutation frequencies of shuffle (chi-square, reachability) and absence of short periods of "
     "next(0..m) are properties of one concrete PRNG; they are measured by `e_rand stat` and by permstat/period cases",
 ]
@@ -45,15 +47,18 @@ MANIFEST = {
     "text": ("Lean 4 theorems about an executable model of rlib_rand (one definition generic in width/signedness, explicit wrap-around casts, "
              "checked +/-, asserts as panics): int_range_in / int_range_onto / int_range_empty for all five range forms, every width >= 1 "
              "(onto: <= 64), both signednesses and every raw word, full range included; seed_determinism (stream = scramble of the iterated "
-             "LCG step, copies evolve equally); mix_bijective (xor-shift and odd multiplication mod 2^64 are inverted explicitly); "
+             "LCG step, copies evolve equally - definitional in a pure model: the evidence for the determinism clause is the `stream` "
+             "differential, equal seeds / Copy clones); mix_bijective (xor-shift and odd multiplication mod 2^64 are inverted explicitly); "
              "lcg_full_period (Hull-Dobell for modulus 2^64) hence every 64-bit word is output exactly once per period; "
              "lcg_state_low_bits_periodic (why the raw state must not be returned); shuffle_perm for every draw stream and slice; "
              "shuffle_onto (every permutation is produced by in-range draws); float_range_lt_end for any arithmetic and float_range_in for "
-             "any monotone rounding that fixes representable numbers. The model is tied to the crate by a differential run on every check."),
+             "any monotone rounding that fixes representable numbers, instantiated (float_range_in_binary64) with round-to-nearest-even to 53 "
+             "bits with gradual underflow at 2^-1074, proved monotone with every double a fixed point. The model is tied to the crate by a differential run on every check."),
     "note": ("PARTIAL: permutation frequencies of shuffle and the absence of short periods in next(0..m) are statistics of one concrete PRNG "
              "and are TESTED (chi-square with a fixed generous bound over >= 10^5 seeds for lengths 2..6, every permutation reached; period "
-             "scan m <= 64, periods <= 4096), not proved. The float theorem is about exact rationals with an abstract rounding (overflow and "
-             "NaN are covered only by float_range_lt_end and the bit-exact differential run). Trusted: Lean kernel, axioms "
+             "scan m <= 64, periods <= 4096), not proved. The float lower bound is proved for binary64 rounding without overflow (rationals, RNE 53 bits, subnormals); "
+             "overflow to infinity / NaN is covered by float_range_lt_end (upper bound, any arithmetic) and the bit-exact differential run. "
+             "`period` and `permstat` case lines carry a tested claim: the driver prints V := S for them. Trusted: Lean kernel, axioms "
              "propext/Classical.choice/Quot.sound, the hand-written model, constant extraction by anchored regexes, harness and driver plumbing."),
     "technique": "Lean 4 proof of a hand-written model + differential correspondence check against the Rust crate + statistical tests (labelled)",
     "design_ref": "DESIGN.md §6 C14",
